@@ -1,8 +1,10 @@
+//@integration verif_replay_d10
+//@props C17
 // D10: max_active_connections is not enforced
 use std::time::{Duration, Instant};
 
 #[test]
-fn d10_second_client_accepted_beyond_max_active() {
+fn verif_d10_second_client_accepted_beyond_max_active() {
     let server_addr = "127.0.0.1:18992";
     let mut scfg: uflow::server::Config = Default::default();
     scfg.max_active_connections = 1;
